@@ -517,7 +517,10 @@ class VariantFamily(Family):
     def bounded_source(cls, prog, fname):
         src = '''package variants
 
-import "testing"
+import (
+	"fmt"
+	"testing"
+)
 
 // bounded stand-in: every sequence of up to 3 array operations (SetByIndex 0..6, SetLength 0..6, clone-and-write)
 // on arrays of length 0..2, compared with a plain list model; plus equality/copy checks on every scalar type
@@ -598,6 +601,41 @@ func TestVerifReplay(t *testing.T) {
 		for i := 0; i < n; i++ { c.GetByIndex(i).SetAsString("z") }
 		for i := 0; i < n; i++ { if a.GetByIndex(i).Type() != Integer || a.GetByIndex(i).AsInteger() != i { t.Fatalf("Clone: changing element %d of the clone changed the original (n=%d)", i, n) } }
 	}
+	// nested arrays (depth 2 and 3): the clone equals the original, shares no node with it at any depth, and writing into any
+	// node of the clone in place leaves every leaf of the original as it was
+	{
+		mkNested := func() *Variant {
+			inner := VariantFromArray([]*Variant{VariantFromInteger(1), VariantFromString("s"), nil})
+			outer := VariantFromArray([]*Variant{inner, VariantFromInteger(3), VariantFromArray(nil)})
+			return VariantFromArray([]*Variant{outer, VariantFromBoolean(true)})
+		}
+		var nodes func(v *Variant, acc *[]*Variant)
+		nodes = func(v *Variant, acc *[]*Variant) {
+			if v == nil { return }
+			*acc = append(*acc, v)
+			if v.Type() == Array { for i := 0; i < v.Length(); i++ { nodes(v.GetByIndex(i), acc) } }
+		}
+		var show func(v *Variant) string
+		show = func(v *Variant) string {
+			if v == nil { return "nil" }
+			if v.Type() != Array { return fmt.Sprintf("%d:%v", v.Type(), v.AsObject()) }
+			s := "["
+			for i := 0; i < v.Length(); i++ { s += show(v.GetByIndex(i)) + "," }
+			return s + "]"
+		}
+		orig := mkNested()
+		before := show(orig)
+		cl := orig.Clone()
+		if !cl.Equals(orig) || !orig.Equals(cl) || show(cl) != before { t.Fatalf("Clone (nested): the clone differs: %s vs %s", show(cl), before) }
+		var on, cn []*Variant
+		nodes(orig, &on); nodes(cl, &cn)
+		for _, x := range on { for _, y := range cn { if x == y { t.Fatalf("Clone (nested): the clone shares a node with the original (%s)", show(x)) } } }
+		for _, y := range cn { if y.Type() != Array { y.SetAsString("changed") } else { y.SetByIndex(y.Length(), VariantFromInteger(7)) } }
+		if show(orig) != before { t.Fatalf("Clone (nested): writing into the clone changed the original: %s, was %s", show(orig), before) }
+		as := EmptyVariant(); as.Assign(orig)
+		as.SetByIndex(0, VariantFromInteger(0))
+		if show(orig) != before { t.Fatalf("Assign (nested): writing into the copy changed the original") }
+	}
 	// a nil *Variant as a host value is the Null value; objects of any Go type can be compared without a panic, symmetrically
 	if v := NewVariant((*Variant)(nil)); v == nil || !v.IsNull() { t.Fatalf("NewVariant((*Variant)(nil)) is not Null") }
 	if v := VariantFromObject((*Variant)(nil)); v == nil || !v.IsNull() { t.Fatalf("VariantFromObject((*Variant)(nil)) is not Null") }
@@ -648,7 +686,7 @@ func TestVerifReplay(t *testing.T) {
 	}
 }
 '''
-        return 'variants', src, 'all pairs of arrays of length 0..3 over 7 element values (nil included) equal exactly when equal position by position; all sequences of <= 3 array operations (SetByIndex/SetLength 0..6, clone) on arrays of length 0..2 (positions distinct objects, in-place writes into padded nulls); assign and clone against the value model; equality on one value per scalar type and on objects of uncomparable Go types; nil variants'
+        return 'variants', src, 'all pairs of arrays of length 0..3 over 7 element values (nil included) equal exactly when equal position by position; a clone of an array nested three deep shares no node with the original; all sequences of <= 3 array operations (SetByIndex/SetLength 0..6, clone) on arrays of length 0..2 (positions distinct objects, in-place writes into padded nulls); assign and clone against the value model; equality on one value per scalar type and on objects of uncomparable Go types; nil variants'
 
     def inputs(self):
         d = {}
@@ -2429,6 +2467,12 @@ func TestVerifReplay(t *testing.T) {
 		mp := mparsers.NewMustacheParser()
 		if e := mp.SetTemplate(tpl); e != nil { t.Errorf("%q: the template accepts it, its parser does not: %v", tpl, e); bad++ }
 		if got := mp.VariableNames(); strings.Join(got, ",") != strings.Join(want, ",") { t.Errorf("%q: reported names %v, in order of first occurrence they are %v", tpl, got, want); bad++ }
+		// the names are those of the template that was set last: a blank template, a rejected one and Clear leave none behind
+		if e := mp.SetTemplate(" \n"); e != nil || len(mp.VariableNames()) != 0 { t.Errorf("%q then a blank template: names %v, error %v", tpl, mp.VariableNames(), e); bad++ }
+		mp.SetTemplate(tpl)
+		if e := mp.SetTemplate("{{#open}}"); e == nil || len(mp.VariableNames()) != 0 { t.Errorf("%q then a rejected template: names %v, error %v", tpl, mp.VariableNames(), e); bad++ }
+		mp.SetTemplate(tpl); mp.Clear()
+		if len(mp.VariableNames()) != 0 { t.Errorf("%q then Clear: names %v", tpl, mp.VariableNames()); bad++ }
 		dv := m.DefaultVariables()
 		if len(dv) != len(want) { t.Errorf("%q: default variables %v, names in the template %v", tpl, dv, want); bad++ }
 		for _, w := range want { found := false; for k := range dv { if strings.EqualFold(k, w) { found = true } }; if !found { t.Errorf("%q: no default variable for %s (%v)", tpl, w, dv); bad++ } }
